@@ -191,6 +191,12 @@ var shapeAreas = map[string][]shapeFn{
 		{"skiplist/iterator.go", "*Iterator", "Refresh", "SkipIterRefresh"}, {"skiplist/iterator.go", "*Iterator", "Close", "SkipIterClose"},
 		{"skiplist/node_amd64.go", "*Node", "setNext", ""}, {"skiplist/node_amd64.go", "*Node", "getNext", ""},
 		{"skiplist/node_amd64.go", "*Node", "dcasNext", ""}, {"skiplist/item.go", "", "compare", "itemCompare"},
+		{"skiplist/skiplist.go", "", "NewWithConfig", "SkiplistNewWithConfig"}, {"skiplist/skiplist.go", "*Skiplist", "NewNode", ""},
+		{"skiplist/skiplist.go", "*Skiplist", "FreeNode", ""}, {"skiplist/skiplist.go", "*Skiplist", "MakeBuf", ""},
+		{"skiplist/node_alloc_amd64.go", "", "allocNode", ""}, {"skiplist/node_amd64.go", "*Node", "SetLink", ""},
+		{"skiplist/node_amd64.go", "*Node", "GetLink", ""}, {"skiplist/node_amd64.go", "*Node", "GetNext", "NodeGetNext"},
+		{"skiplist/node_amd64.go", "Node", "Size", "NodeSize"}, {"skiplist/node_amd64.go", "Node", "Level", "NodeLevel"},
+		{"skiplist/stats.go", "*Skiplist", "GetStats", ""}, {"skiplist/stats.go", "*Skiplist", "MemoryInUse", "SkiplistMemoryInUse"},
 	},
 	"Barrier": {
 		{"skiplist/access_barrier.go", "", "CompareBS", ""}, {"skiplist/access_barrier.go", "", "newBarrierSession", ""},
@@ -213,6 +219,9 @@ var shapeAreas = map[string][]shapeFn{
 		{"iterator.go", "*Iterator", "SetRefreshRate", "IterSetRefreshRate"}, {"iterator.go", "*Iterator", "Close", "IterClose"},
 		{"iterator.go", "*Nitro", "NewIterator", "NitroNewIterator"},
 		{"item.go", "*Nitro", "newItem", ""}, {"item.go", "*Nitro", "freeItem", ""}, {"item.go", "*Nitro", "allocItem", ""},
+		{"nitro.go", "", "DefaultConfig", ""}, {"nitro.go", "*Config", "SetKeyComparator", ""}, {"nitro.go", "*Config", "UseMemoryMgmt", ""},
+		{"nitro.go", "*Config", "UseDeltaInterleaving", ""}, {"nitro.go", "", "NewWithConfig", ""}, {"nitro.go", "*Nitro", "newStoreConfig", ""},
+		{"nitro.go", "*Nitro", "initSizeFuns", ""}, {"nitro.go", "*Nitro", "NewWriter", ""}, {"nitro.go", "*Nitro", "GetSnapshots", ""},
 	},
 	"Visitor": {
 		{"nitro.go", "*Nitro", "Visitor", ""}, {"skiplist/skiplist.go", "*Skiplist", "GetRangeSplitItems", ""},
